@@ -56,6 +56,9 @@ def variants(jinja2):
             for flag in (False, True):
                 out.append(V(jinja2, autoescape=ae, optimized=opt, volatile=flag))
     for opt in (True, False):
+        # a static autoescape block that differs from the environment's setting
+        out.append(V(jinja2, autoescape=True, env_autoescape=False, optimized=opt))
+        out.append(V(jinja2, autoescape=False, env_autoescape=True, optimized=opt))
         out.append(V(jinja2, autoescape=True, is_async=True, optimized=opt))
         out.append(V(jinja2, autoescape=True, sandboxed=True, ic_bin=("+", "*"), ic_un=("-",), hook="perturb", optimized=opt))
     return out
@@ -64,11 +67,9 @@ def variants(jinja2):
 def render_wrapped(v, wrapper, src, data):
     kind, pat = wrapper
     body = pat % ((src,) * pat.count("%s"))
+    text = v.wrap(body)
     if v.volatile is not None:
-        text = "{% autoescape vflag %}" + body + "{% endautoescape %}"
         data = dict(data, vflag=v.volatile)
-    else:
-        text = body
     v.log = []
     try:
         t = v.env.from_string(text)
@@ -86,7 +87,7 @@ def run(ctx, res):
     vs = variants(jinja2)
     groups = {}
     for v in vs:                       # variants that must agree: same everything but `optimized`
-        groups.setdefault((v.autoescape, v.volatile, v.sandboxed, v.is_async), []).append(v)
+        groups.setdefault((v.autoescape, v.env_autoescape, v.volatile, v.sandboxed, v.is_async), []).append(v)
     broken = bool(ctx.gen_changed or ctx.proof_broken or ctx.tie_broken)
     ntrees = ctx.pick(900, 8000) * (4 if broken else 1)      # a broken proof/tie: search harder for a failing input
     maxd = ctx.pick(4, 5)
@@ -104,10 +105,11 @@ def run(ctx, res):
     evaluations, distinct, folded, oom, disagreements = 0, set(), 0, 0, 0
     kinds = {}
     gkeys = sorted(groups, key=str)
+    static_keys = [k for k in gkeys if k[0] != k[1]]      # static autoescape block against the environment's setting
     for tree, src, lsrc, lenv in zip(trees, srcs, lsrcs, lenvs):
         data = X.make_data(jinja2, rng)
         vars_, objs = X.ctx_sx(jinja2, data)
-        gkey = rng.choice(gkeys)
+        gkey = rng.choice(static_keys) if rng.random() < 0.2 else rng.choice(gkeys)
         wrapper = rng.choice(WRAPPERS) if rng.random() < 0.5 else WRAPPERS[0]
         outs = []
         for v in groups[gkey]:
@@ -149,8 +151,8 @@ def run(ctx, res):
     res.coverage.update({
         "evaluations": evaluations, "distinct_nontrivial": len(distinct),
         "rule": (f"{ntrees} constant-rich random expression trees (depth 1-{maxd}); each rendered in one of 5 statement positions under "
-                 "one of 8 configurations (autoescape off/on/decided at run time by an autoescape block with flag true/false, plus "
-                 "async and sandboxed-with-interception) with optimizer on and off and with every literal lifted into a context "
+                 "one of 10 configurations (autoescape off/on, switched by a static autoescape block against the environment's setting, "
+                 "decided at run time by an autoescape block with flag true/false, plus async and sandboxed-with-interception) with optimizer on and off and with every literal lifted into a context "
                  "variable; all renderings must be equal; `{{ e }}` forms are also compared with the Lean evaluator; distinct = "
                  "distinct (source, position, configuration)"),
         "samples": [{"src": srcs[i], "lifted": lsrcs[i]} for i in (1, len(srcs) // 2)],
